@@ -257,8 +257,10 @@ def run(ctx):
     # 4 correspondence -----------------------------------------------------------------------------
     conv = Conv(G, optext) if G else None
     gen = c02.Gen(G, ctx.rng) if G else None
-    n_trees = (4000 if not ctx.thorough else 60000) if gen else 0
+    tgen = c02.TypedGen(G, ctx.rng) if G else None
+    n_trees = (3000 if not ctx.thorough else 40000) if gen else 0
     trees = [gen.tree(ctx.rng.choice([1, 2, 2, 3, 3, 4, 5])) for _ in range(n_trees)]
+    trees += [tgen.tree(ctx.rng.choice([1, 2, 2, 3, 3, 4, 5, 6])) for _ in range(n_trees)]     # accepted by the type checker
     for t in failing:
         trees.append(t["sexp"])              # every exception witness is replayed on the library
     # hand-picked literal / text-level cases
@@ -356,7 +358,7 @@ def run(ctx):
     cov["correspondence_cases"] = len(inmodel)
     cov["correspondence_disagreements"] = len(model_bugs)
     cov["traces_validated_against_impl"] = len(inmodel)
-    cov["distribution"] = dict(stats, tree_nodes=gen.stats if gen else {}, queries=qstats)
+    cov["distribution"] = dict(stats, tree_nodes=gen.stats if gen else {}, typed_tree_nodes=tgen.stats if tgen else {}, queries=qstats)
     cov["samples"] = [{"text": c["text"], "str": c["s1"], "equal": c["eq"], "typeok": c["typeok"]} for c in cases[:: max(1, len(cases) // 5)][:6]]
     ctx.assumptions += [
         "the theorem is at token level; that lexing the text of str() gives the model's token stream is checked on every case (not proved)",
